@@ -29,7 +29,7 @@ pub fn strategy() -> BoxedStrategy<Case> {
     )
         .prop_map(|(issue, ch, kb)| {
             let selection = selection_for(&issue, &ch, SelOpts { allow_null: false });
-            let kb = if issue.holder.is_some() { kb.map(|(aud, nonce)| KbArgs { aud, nonce, key: issue.holder }) } else { None };
+            let kb = if issue.holder.is_some() { kb.map(|(aud, nonce)| KbArgs { default_alg: nonce.chars().count() % 2 == 1, aud, nonce, key: issue.holder }) } else { None };
             C01Case { issue, selection, kb }
         })
         .boxed()
